@@ -32,6 +32,13 @@ Definition fCF := 5.  (* pending: +1 booked elsewhere for the ball this device e
 Definition fM := 6.   (* pending: count dropped while idle, loss not yet booked to the playfield *)
 Definition fDEC := 7. (* 1 between the -1 of end_eject and the state change that follows it (not observable) *)
 Definition fPH := 8.  (* balls physically in the device *)
+Definition fXC := 9.  (* confirm of the current eject: 0 = by the target's count (confirm_eject_type target),
+                         1 = external confirm switch/event awaited, 2 = externally confirmed: the ball is still
+                         expected at the target although the source's eject is over *)
+Definition fLI := 10. (* pending: incoming balls whose ball_missing_timeout expired (taken off the list),
+                         lost_incoming_ball not yet called *)
+Definition UNCONF : Z := 100.   (* list entry s + UNCONF: ball of source s that has not passed its confirm
+                                   switch/event yet (IncomingBall.can_arrive = False) *)
 
 (* scalar fields *)
 Definition zB := 0.     (* playfield.balls *)
@@ -83,7 +90,21 @@ Fixpoint remove1 (d : Z) (l : list Z) : list Z :=
 Definition memz (d : Z) (l : list Z) : bool := existsb (Z.eqb d) l.
 
 (* expected incoming balls of other sources (an entrance-counted source has registered its own ball already) *)
-Definition others (d : Z) (l : list Z) : list Z := filter (fun s => negb (s =? d)) l.
+Definition others (d : Z) (l : list Z) : list Z :=
+  filter (fun s => negb ((s =? d) || (s =? d + UNCONF))) l.
+
+(* first entry that can arrive (ball_arrived skips balls that still wait for their external confirm) *)
+Fixpoint pop_conf (l : list Z) : option (Z * list Z) :=
+  match l with
+  | [] => None
+  | e :: l' => if e <? UNCONF then Some (e, l')
+               else match pop_conf l' with Some (s, r) => Some (s, e :: r) | None => None end
+  end.
+
+(* replace the first / the last occurrence of a by b *)
+Fixpoint replace1 (a b : Z) (l : list Z) : list Z :=
+  match l with [] => [] | e :: l' => if e =? a then b :: l' else e :: replace1 a b l' end.
+Definition replace_last (a b : Z) (l : list Z) : list Z := rev (replace1 a b (rev l)).
 
 Definition blfc (s : Z) : bool := (s =? BL) || (s =? FC).
 
@@ -115,6 +136,11 @@ Inductive label :=
 | LMissingEv (d : Z)        (* balldevice_d_ball_missing *)
 | LBroken (d : Z)           (* balldevice_d_broken *)
 | LPulse (d : Z)            (* eject coil of d pulsed at the platform *)
+| LExtWait (d : Z)          (* IncomingBall.add_external_confirm_switch/event: the ball d has just sent off must pass
+                               d's confirm switch / event before it can arrive *)
+| LConfirmed (d t : Z)      (* IncomingBall._external_confirm: it did; ball_missing_timeout runs at the target *)
+| LIncTimeout (t s : Z)     (* IncomingBallsHandler._run: the confirmed ball of s did not arrive at t in time *)
+| LIncLost (t s : Z)        (* BallDevice.lost_incoming_ball(source = s) called at t *)
 | SLeave (s t : Z)          (* physical: a ball leaves s (device or PF) towards t; t = s: it will fall back *)
 | SArrive (s t : Z)         (* physical: it arrives in device t *)
 | SBounce (s t : Z)         (* physical: t is full, the ball ends up loose on the playfield *)
@@ -129,7 +155,8 @@ Inductive label :=
 Definition guard (b : bool) (x : st) : option st := if b then Some x else None.
 
 Definition books_closedb (c : cfg) (x : st) : bool :=
-  forallb (fun d => (f x fU d =? 0) && (f x fCF d =? 0) && (f x fM d =? 0) && (f x fDEC d =? 0)) (devs c)
+  forallb (fun d => (f x fU d =? 0) && (f x fCF d =? 0) && (f x fM d =? 0) && (f x fDEC d =? 0)
+                    && (f x fLI d =? 0)) (devs c)
   && (z x zREM =? 0) && (z x zQ =? 0) && (z x zW =? 0).
 
 Definition snap_dev_ok (x : st) (l : list Z) : bool :=
@@ -153,7 +180,7 @@ Definition step (c : cfg) (x : st) (l : label) : option st :=
       let x1 := setf x fC d n in
       if old <=? n then Some (addf x1 fU d (n - old))
       else if blfc (f x fS d) then
-        guard ((n =? old - 1) && (1 <=? f x fCF d) && (f x fDEC d =? 0))
+        guard ((n =? old - 1) && ((1 <=? f x fCF d) || (f x fXC d =? 2)) && (f x fDEC d =? 0))
               (setf (addf x1 fCF d (-1)) fDEC d 1)
       else Some (addf x1 fM d (old - n))
   | LState d s =>
@@ -167,10 +194,16 @@ Definition step (c : cfg) (x : st) (l : label) : option st :=
         else guard (isdev c t) (setinc x1 t (inc x t ++ [d]))
       else if s =? FC then guard (old =? BL) (setf x fS d s)
       else if blfc old then
-        (* the eject is over: the booked ball must have been taken off the own count *)
-        if negb ((f x fCF d =? 0) && negb (memz d (pfq x)) && (f x fC d <=? cap c d)) then None else
+        (* the eject is over: the booked ball must have been taken off the own count (a source with an external
+           confirm may still have a confirmed ball on its way: its booking comes with the arrival or the loss) *)
+        if negb (((f x fCF d =? 0) || negb (f x fXC d =? 0)) && negb (memz d (pfq x)) && (f x fC d <=? cap c d))
+        then None else
         let t := f x fTG d in
-        if t =? PF then Some x1 else Some (setinc x1 t (remove1 d (inc x t)))
+        let x2 := setf x1 fXC d 0 in
+        if t =? PF then Some x2
+        else if f x fXC d =? 2 then Some x2
+        else if f x fXC d =? 1 then Some (setinc x2 t (remove1 (d + UNCONF) (inc x t)))
+        else Some (setinc x2 t (remove1 d (inc x t)))
       else Some x1
   | LChain s t =>
       if negb (isdev c s && (1 <=? f x fA s)) then None else
@@ -179,9 +212,9 @@ Definition step (c : cfg) (x : st) (l : label) : option st :=
   | LEnter d un =>
       if negb (isdev c d) then None else
       if un =? 0 then
-        match inc x d with
-        | [] => None
-        | src :: rest => guard (isdev c src) (addf (addf (setinc x d rest) fCF src 1) fU d (-1))
+        match pop_conf (inc x d) with
+        | None => None
+        | Some (src, rest) => guard (isdev c src) (addf (addf (setinc x d rest) fCF src 1) fU d (-1))
         end
       else guard (1 <=? z x zREM) (addf (addz x zREM (-1)) fU d (-1))
   | LCaptured => Some (addz x zCAPP 1)
@@ -205,7 +238,8 @@ Definition step (c : cfg) (x : st) (l : label) : option st :=
   | LFailed d t _ _ =>
       if negb (isdev c d) then None else
       if t =? PF then Some (addz x zREQM 1)
-      else if f x fS d =? FC then Some (setz (setinc x t (remove1 d (inc x t))) zLASTF d)
+      else if f x fS d =? FC then
+        Some (setz (setinc x t (remove1 (if f x fXC d =? 1 then d + UNCONF else d) (inc x t))) zLASTF d)
       else Some x
   | LPfAdded =>
       match pfq x with
@@ -237,6 +271,18 @@ Definition step (c : cfg) (x : st) (l : label) : option st :=
       let t := f x fTG d in
       if t =? PF then Some x
       else guard (isdev c t && (Z.of_nat (length (others d (inc x t))) <? cap c t - f x fC t)) x
+  | LExtWait d =>
+      let t := f x fTG d in
+      guard (isdev c d && isdev c t && (f x fS d =? BL) && (f x fXC d =? 0) && memz d (inc x t))
+            (setf (setinc x t (replace_last d (d + UNCONF) (inc x t))) fXC d 1)
+  | LConfirmed d t =>
+      guard (isdev c d && isdev c t && blfc (f x fS d) && (f x fXC d =? 1) && (f x fTG d =? t)
+             && memz (d + UNCONF) (inc x t))
+            (setf (setinc x t (replace1 (d + UNCONF) d (inc x t))) fXC d 2)
+  | LIncTimeout t s =>
+      guard (isdev c t && isdev c s && memz s (inc x t)) (addf (setinc x t (remove1 s (inc x t))) fLI t 1)
+  | LIncLost t s =>
+      guard (isdev c t && isdev c s && (1 <=? f x fLI t)) (setz (addf x fLI t (-1)) zLASTF s)
   | SLeave s t =>
       if s =? PF then
         guard (isdev c t && (1 <=? z x zLOOSE)) (addz (addz x zLOOSE (-1)) zTR 1)
